@@ -55,6 +55,13 @@ impl From<TypeErr> for Vec<TypeErr> {
     }
 }
 
+#[cfg(feature = "verif")]
+impl TypeErr {
+    pub fn verif_causes(&self) -> &[Cause] {
+        &self.causes
+    }
+}
+
 impl TypeErr {
     /// New TypeErr with message at given position
     pub fn new(position: Position, msg: &str) -> TypeErr {
